@@ -230,6 +230,46 @@ def find_func(scope: ast.AST, name: str, raw: bool = False) -> ast.FunctionDef |
     return None
 
 
+def subst_locals(fn: ast.AST, e: ast.AST, depth: int = 3) -> ast.AST:
+    """`e` with local names replaced by their definition when the name is assigned exactly once in `fn`
+    (a plain `x = <expr>` / `x: T = <expr>`), is not a parameter, and the definition contains no call:
+    `file_pos = bucket + self.offset; seek(file_pos)` reads as `seek(bucket + self.offset)`"""
+    if depth <= 0:
+        return e
+    params = {a.arg for a in getattr(getattr(fn, 'args', None), 'args', [])} if hasattr(fn, 'args') else set()
+    defs: dict[str, list[ast.AST]] = {}
+    for n in ast.walk(fn):
+        if isinstance(n, ast.Assign):
+            for t in n.targets:
+                for x in ast.walk(t):
+                    if isinstance(x, ast.Name) and isinstance(x.ctx, ast.Store):
+                        defs.setdefault(x.id, []).append(n if t is x and len(n.targets) == 1 else None)
+        elif isinstance(n, ast.AnnAssign) and isinstance(n.target, ast.Name) and n.value is not None:
+            defs.setdefault(n.target.id, []).append(n)
+        elif isinstance(n, (ast.AugAssign,)) and isinstance(n.target, ast.Name):
+            defs.setdefault(n.target.id, []).append(None)
+        elif isinstance(n, (ast.For, ast.comprehension)):
+            for x in ast.walk(n.target):
+                if isinstance(x, ast.Name):
+                    defs.setdefault(x.id, []).append(None)
+
+    class T(ast.NodeTransformer):
+        def visit_Name(self, node: ast.Name):
+            if not isinstance(node.ctx, ast.Load) or node.id in params:
+                return node
+            ds = defs.get(node.id, [])
+            if len(ds) != 1 or ds[0] is None:
+                return node
+            val = ds[0].value
+            if any(isinstance(x, (ast.Call, ast.Await, ast.IfExp, ast.NamedExpr)) for x in ast.walk(val)):
+                return node
+            import copy as _copy
+            from .normalise import clone
+            return subst_locals(fn, clone(val), depth - 1)
+    from .normalise import clone as _clone
+    return T().visit(_clone(e))
+
+
 def need(obj, what: str):
     if obj is None:
         raise AnalysisError(f'anchor vanished: {what}')
